@@ -60,7 +60,20 @@ def main():
     shutil.rmtree(os.path.join(patched, "_b"), ignore_errors=True)
     # 2. the demonstration
     democc = os.path.join(seed, "demo.cc")
-    if os.path.exists(democc):
+    demosh = os.path.join(seed, "demo.sh")
+    if os.path.exists(demosh):
+        # script-style demonstration (compile probes / configuration matrices): run it inside a clean and a patched copy
+        clean = os.path.join(work, "clean")
+        sh(["rsync", "-a", "--exclude", "_build", "--exclude", ".git", "--exclude", "seed*", "/repo/", clean + "/"])
+        for nm, tree in (("clean", clean), ("patched", patched)):
+            sd = os.path.join(tree, "seedx")
+            shutil.copytree(seed, sd)
+            rc, out = sh(["sh", os.path.join(sd, "demo.sh")], cwd=tree, timeout=1800)
+            res["demo_" + nm] = "pass" if rc == 0 else "fail(rc=%d)" % rc
+            if nm == "patched":
+                res["demo_patched_output"] = out[-800:]
+            shutil.rmtree(sd, ignore_errors=True)
+    elif os.path.exists(democc):
         res["demo_clean"], o1 = demo("/repo", democc, work)
         res["demo_patched"], o2 = demo(patched, democc, work)
         res["demo_patched_output"] = o2[-600:]
